@@ -14,6 +14,7 @@ import (
 	"encoding/hex"
 	"testing"
 
+	"verifharness/notifres"
 	"verifharness/vh"
 )
 
@@ -113,13 +114,14 @@ func TestCheck(t *testing.T) {
 			run.Violate(v.Key, v.What, v.Case)
 		}
 	}
+	notifres.Judge(t, env, run, "C20") // real notifiers reporting the result of a delivery that reached the service
 	if hookSrv != nil {
 		hookSrv.Close()
 	}
 	if theSink != nil {
 		theSink.srv.Close()
 	}
-	if err := run.Finish("five engines in one check (distribution.engine): trunc = TruncateInRunes/TruncateInBytes on strings of 1-4-byte runes and invalid UTF-8, rune/byte lengths around n, n/2, n/3, n/4 and 32 runes, n in 0..200 and a few negative (non-trivial: truncated or panicked); rcheck = Retrier.Check on status codes x retry-code lists; data = Template.Data under synctest and the real webhook.Notifier -> httptest server (same alert objects built/delivered 3x; webhook: transport-level fault steps through the same notifier - dial refused, context cancelled/expired - with the same or a different batch in between, every received body must be exactly one JSON document of its own batch), 0-6 alerts, shared/unshared/empty-valued labels and annotations, EndsAt at/around now, the Timeout flag set independently of EndsAt and batches of only timed-out resolved alerts, max_alerts in {0,1,2,10} (non-trivial: >= 2 alerts); retry = notify.RetryStage under synctest with scripted outcomes {ok,recov,unrecov,hang-retry,hang-noretry}, deadline or cancel 0ns..5min after start plus long flush deadlines 16min/20min/1h/6h with outages that never end or end (time-based) 95s..5min before the deadline or anywhere past 15min, send_resolved on/off, firing set present/absent/stale (non-trivial: >= 2 attempts or a failed one); fanout = createReceiverStage pipeline with 1-3 scripted integrations, a real nflog.Log pre-populated none/same/other, failing log writes, plus a rerun of one integration without its siblings (non-trivial: >= 2 events); recv = one receiver built by the real receiver.BuildReceiverIntegrations: (Name,Index) pairs = (config key stem, position), pairwise distinct, for all 18 kinds / random subsets; pairs of different kinds (msteams+msteamsv2, webhook+slack, ...) through the real receiver stage, real notifiers and nflog with one endpoint failing then healthy; slack/webhook with `timeout` against a delayed body; e-mail against an SMTP server that drops the connection at QUIT; limit = the real webex notifier with long 1-4-byte texts, message field within 7439 BYTES; corpus cases first; distinct by full case text"); err != nil {
+	if err := run.Finish("five engines in one check (distribution.engine): trunc = TruncateInRunes/TruncateInBytes on strings of 1-4-byte runes and invalid UTF-8, rune/byte lengths around n, n/2, n/3, n/4 and 32 runes, n in 0..200 and a few negative (non-trivial: truncated or panicked); rcheck = Retrier.Check on status codes x retry-code lists; data = Template.Data under synctest and the real webhook.Notifier -> httptest server (same alert objects built/delivered 3x; webhook: transport-level fault steps through the same notifier - dial refused, context cancelled/expired - with the same or a different batch in between, every received body must be exactly one JSON document of its own batch), 0-6 alerts, shared/unshared/empty-valued labels and annotations, EndsAt at/around now, the Timeout flag set independently of EndsAt and batches of only timed-out resolved alerts, max_alerts in {0,1,2,10} (non-trivial: >= 2 alerts); retry = notify.RetryStage under synctest with scripted outcomes {ok,recov,unrecov,hang-retry,hang-noretry}, deadline or cancel 0ns..5min after start plus long flush deadlines 16min/20min/1h/6h with outages that never end or end (time-based) 95s..5min before the deadline or anywhere past 15min, send_resolved on/off, firing set present/absent/stale (non-trivial: >= 2 attempts or a failed one); fanout = createReceiverStage pipeline with 1-3 scripted integrations, a real nflog.Log pre-populated none/same/other, failing log writes, plus a rerun of one integration without its siblings (non-trivial: >= 2 events); recv = one receiver built by the real receiver.BuildReceiverIntegrations: (Name,Index) pairs = (config key stem, position), pairwise distinct, for all 18 kinds / random subsets; pairs of different kinds (msteams+msteamsv2, webhook+slack, ...) through the real receiver stage, real notifiers and nflog with one endpoint failing then healthy; plus notifres.Judge: slack/webhook with `timeout` against a delayed body and e-mail against an SMTP server that drops the connection at QUIT must report success, deliver once, record, and stay silent in flush 2; limit = the real webex notifier with long 1-4-byte texts, message field within 7439 BYTES; corpus cases first; distinct by full case text"); err != nil {
 		t.Fatal(err)
 	}
 }
